@@ -64,9 +64,9 @@ CHECKS = {
         "test": "TestC08", "level": "fault_enumeration", "engine": "twin",
         "technique": "fault enumeration over generated histories: every ABCI boundary and every durable write of Commit as a crash point, snapshot + reopen + replay",
         "level_text": "Fault enumeration: for rapid-generated histories, every crash point of the sampled blocks (quick) / of every block (thorough) is taken - before/after BeginBlock, after each DeliverTx, after EndBlock, after each of the 12-13 durable writes of Commit (named by store through the verifhook callback) and after Commit. The data directory is copied at that instant (what a killed process leaves), a new node is opened on the copy and must report a reconcilable height/hash, replay the interrupted block and follow the never-crashed replica's results for up to two more blocks.",
-        "level_note": "Fault model is process death (no torn or reordered disk writes). Known finding F8: the points between the first and the last durable write fail on the unchanged tree in one specific mode; exactly that (point, mode) set is tolerated and counted, anything else alarms.",
+        "level_note": "Fault model is process death (no torn or reordered disk writes). Finding F8 (the points between the first and the last durable write of a commit bricked the node) is repaired in the repository (rollback of the stores to the last completely committed block when the node opens them); no crash point and no failure mode is tolerated any more, and the stored history of F8 is re-executed with every crash point on every run.",
         "quick": {"checks": 12, "timeout": 900},
-        "thorough": {"checks": 40, "shards": 15, "timeout": 3000},
+        "thorough": {"checks": 14, "shards": 15, "timeout": 3000},
         "rule": "crash points enumerated per block of rapid-generated histories (5-16 blocks; the 10th block, whose commit also writes the reward-hash record, is always among the sampled ones); evaluations = histories, extra.crash_points = examined points per label; non-trivial = a history with at least one examined crash point strictly inside Commit; distinct = distinct (tx shape, number of points) hashes",
         "assumptions": COMMON_ASSUME + ["no background writer touches the data directory while it is copied (goleveldb compaction does not run on these kilobyte-sized stores)"],
     },
